@@ -116,7 +116,11 @@ func (s *Subscriber[H]) Stop(context.Context) (err error) {
 	err = errors.Join(err, s.metrics.Close())
 	// we must close the topic first and then unregister the validator
 	// this ensures we never get a message after the validator is unregistered
-	err = errors.Join(err, s.topic.Close())
+	if cerr := s.topic.Close(); cerr != nil {
+		// the topic stays joined (there are open subscriptions): its validator has to stay as well,
+		// otherwise whatever arrives from now on is delivered and relayed unvalidated
+		return errors.Join(err, cerr)
+	}
 	err = errors.Join(err, s.pubsub.UnregisterTopicValidator(s.pubsubTopicID))
 	return err
 }
